@@ -173,6 +173,40 @@ func SchCorpus() []SchCorpusCase {
 	add(spd(), 'r', Str("simpletons:x"), "delimited stringprefix: longer unknown discriminant")
 	add(spd(), 'r', Str("simpl:x"), "delimited stringprefix: shorter unknown discriminant")
 	add(spd(), 'r', Str(":x"), "delimited stringprefix: delimiter only")
+	// containers holding >= 2 values of one struct type that differ in completeness (state left in a
+	// reused child assembler must not leak into the next value)
+	{
+		pair := func() *SchTy { return SchStruct('t', SchF("fst", S), SchF("snd", S)) }
+		sjg := func() *SchTy { return SchJoin(":", SchF("a", S), SchF("b", S)) }
+		two := func() *SchTy { return SchStruct('m', SchF("p", pair()), SchF("q", pair())) }
+		P := func(xs ...string) *Val {
+			v := List()
+			for _, x := range xs {
+				v.L = append(v.L, Str(x))
+			}
+			return v
+		}
+		add(SchList(false, pair()), 'r', List(P("a", "b"), P("c", "d")), "list of tuples: complete, complete")
+		add(SchList(false, pair()), 'r', List(P("a", "b"), P()), "list of tuples: complete, empty")
+		add(SchList(false, pair()), 'r', List(P("a", "b"), P("c")), "list of tuples: complete, short")
+		add(SchList(false, pair()), 'r', List(P(), P("c", "d")), "list of tuples: empty, complete")
+		add(SchList(false, pair()), 'r', List(P("a"), P("c", "d"), P("e", "f")), "list of tuples: short, complete, complete")
+		add(SchList(false, pair()), 'r', List(P("a", "b"), P("c", "d", "e")), "list of tuples: complete, too long")
+		add(SchList(false, tu()), 'r', List(List(Int(1), Str("x"), Int(3)), List(Int(2))), "list of tuples with optionals: full, minimal")
+		add(SchList(false, tu()), 'r', List(List(Int(1), Str("x")), List()), "list of tuples with optionals: full, empty")
+		add(SchList(false, sm()), 'r', List(M(E("x", Int(1)), E("c", Null())), M(E("x", Int(2)))), "list of map structs: complete, missing required")
+		add(SchList(false, sm()), 'r', List(M(E("x", Int(1))), M(E("x", Int(2)), E("c", Int(1)))), "list of map structs: missing required, complete")
+		add(SchList(false, sm()), 'r', List(M(E("x", Int(1)), E("c", Int(1)), E("d", Str("z"))), M(E("x", Int(2)), E("c", Null()))), "list of map structs: with optional, without")
+		add(SchList(false, sjg()), 'r', List(Str("a:b"), Str("c")), "list of stringjoin structs: complete, short")
+		add(SchList(false, sjg()), 'r', List(Str("a"), Str("c:d")), "list of stringjoin structs: short, complete")
+		add(SchList(false, sjg()), 'r', List(Str("a:b"), Str("c:d")), "list of stringjoin structs: complete, complete")
+		add(two(), 'r', M(E("p", P("a", "b")), E("q", P())), "two tuple fields: complete, empty")
+		add(two(), 'r', M(E("p", P("a")), E("q", P("c", "d"))), "two tuple fields: short, complete")
+		add(two(), 'r', M(E("p", P("a", "b")), E("q", P("c", "d"))), "two tuple fields: complete, complete")
+		add(SchMapOf(false, pair()), 'r', M(E("k", P("a", "b")), E("j", P())), "map of tuples: complete, empty")
+		add(SchMapOf(false, pair()), 'r', M(E("k", P("a")), E("j", P("c", "d"))), "map of tuples: short, complete")
+		add(SchList(false, uk()), 'r', List(M(E("i", Int(1))), M()), "list of keyed unions: one entry, none")
+	}
 	sp1 := func() *SchTy { return SchUnion('p', SchM("a", 's', SchScalar('S')), SchM("b", 's', SchScalar('S'))) }
 	add(sp1(), 'r', Str("axyz"), "stringprefix with one-character prefixes")
 	add(sp1(), 'r', Str("a"), "stringprefix with one-character prefix and empty rest")
